@@ -22,3 +22,5 @@ python3 tools/derive_unit.py contracts/C23/search_events.toml contracts/C26/sear
   --not-covered "the other event types and front ends (see the C23 unit), delete / revive"
 python3 tools/derive_unit.py contracts/C27/handler_selection.toml contracts/C49/authsession_new.toml C49 authsession_new 'valid_at' \
   --not-covered "AuthSession::new_reauth, auth_ldap, OAuth2 drivers (other authentication paths of C49: see the other units; auth_with_unix_pass: unit unix_pass_auth)"
+python3 tools/derive_unit.py contracts/C44/cached_password.toml contracts/C45/offline_record.toml C45 offline_record 'latest_record' \
+  --not-covered "Resolver::pam_account_authenticate_step storing the returned token, the online step's merge of extra keys, cache expiry and refresh (how current the cached record is)"
